@@ -555,7 +555,8 @@ class Interp:
     def getattr(self, obj, name, node=None):
         if is_unk(obj):
             if obj.tag == 'text' and name in ('strip', 'lower', 'upper',
-                                              'lstrip', 'rstrip'):
+                                              'lstrip', 'rstrip',
+                                              'replace'):
                 return (lambda *a: Unk('text'))
             return Unk(f'{obj.tag}.{name}')
         if isinstance(obj, AbsObj):
